@@ -9,6 +9,7 @@
 -/
 import Cobweb.Syscall
 import Cobweb.Proofs.SyscallFrame
+import Cobweb.Proofs.SyscallFlush
 
 namespace Cobweb.Sc
 
@@ -215,5 +216,24 @@ example : ∀ kind key cnt, ∀ op ∈ nestP.ops kind key cnt, opId op ≠ some 
   split at hop <;> simp at hop
   · rcases hop with rfl | rfl <;> simp [opId, cls]
   · rcases hop with rfl | rfl <;> simp [opId, cls]
+
+/-- **Effects applied on return, for every program and nesting depth**: whenever a call through any entry point returns
+    a value and the executor did not run out of fuel, the world queue is empty — every command the system queued, and every
+    command queued by what those caused, has been applied before the call returned. (A call that fails — missing or running
+    spawned system, unregistered name — changes nothing and leaves the queue as it found it.) -/
+theorem effects_applied_on_return (p : SProg) (fuel : Nat) (st : SSt) (c : SCall)
+    (ho : (exec p fuel st (.call c)).1.oof = false) (hr : (exec p fuel st (.call c)).2.isSome = true) :
+    (exec p fuel st (.call c)).1.wq = [] :=
+  (done_exec p fuel st (.call c) ho).2.1 c rfl (Or.inl hr)
+
+/-- ... and a flush leaves nothing queued. -/
+theorem flush_applies_everything (p : SProg) (fuel : Nat) (st : SSt) (ho : (exec p fuel st .flush).1.oof = false) :
+    (exec p fuel st .flush).1.wq = [] :=
+  (done_exec p fuel st .flush ho).1 rfl
+
+/-- Non-vacuity: the three-level program completes with fuel 30 (nothing left queued, five writes / calls applied), and with
+    fuel 2 the ghost flag reports that the executor ran out. -/
+example : (exec nestP 30 {} (.call ⟨.f, 1, 7⟩)).1.oof = false ∧ (exec nestP 30 {} (.call ⟨.f, 1, 7⟩)).2 = some 700 ∧
+    (exec nestP 30 {} (.call ⟨.f, 1, 7⟩)).1.wq = [] ∧ (exec nestP 2 {} (.call ⟨.f, 1, 7⟩)).1.oof = true := by decide
 
 end Cobweb.Sc
